@@ -3,6 +3,7 @@ package pscen
 import (
 	"context"
 	"strings"
+	"sync/atomic"
 	"time"
 
 	"github.com/twmb/franz-go/pkg/kgo"
@@ -99,10 +100,11 @@ func genScenario() *netctl.Scenario {
 			// LEADER_NOT_AVAILABLE, leader -1): records for it stay buffered until the
 			// delivery timeout, or until Close / AbortBufferedRecords fails them.
 			env := x.ChooseOf("env", []string{"move", "outage0"})
+			outageOver.Store(false)
 			if env == 1 {
 				x.RespRewrite = func(_ *netctl.Conn, key, _ int16, resp kmsg.Response) kmsg.Response {
 					m, ok := resp.(*kmsg.MetadataResponse)
-					if !ok || key != 3 {
+					if !ok || key != 3 || outageOver.Load() {
 						return nil
 					}
 					for i := range m.Topics {
@@ -124,6 +126,7 @@ func genScenario() *netctl.Scenario {
 			c.MoveTopicPartition("t", 1, 1)
 			st := &state{led: nscen.NewLedger(), hooks: nscen.NewHookLedger(), flushed: make(chan error, 4)}
 			st.noAck = cfg.name == "acks0"
+			st.outage = env == 1
 			x.Data = st
 			opts := []kgo.Opt{
 				kgo.RecordPartitioner(kgo.ManualPartitioner()),
@@ -221,11 +224,27 @@ func genScenario() *netctl.Scenario {
 		},
 		Done: func(x *netctl.Exec) bool {
 			st := x.Data.(*state)
-			return x.ThreadsDone() && len(st.led.Outstanding()) == 0
+			if !x.ThreadsDone() {
+				return false
+			}
+			// during the outage a record with an unanswered attempt legitimately
+			// waits for the partition to come back: end the explored phase
+			// after 20 virtual seconds instead of running to the horizon
+			return len(st.led.Outstanding()) == 0 || (st.outage && x.Elapsed() > 20*time.Second)
 		},
-		Final: finalProducer,
+		Final: func(x *netctl.Exec) {
+			// the well-behaved suffix: the election ends. (A record with an
+			// unanswered attempt cannot be failed by the idempotent producer
+			// before the partition is back, so "eventually promised" is only
+			// owed once the outage is over.)
+			outageOver.Store(true)
+			finalProducer(x)
+		},
 	}
 }
+
+// outageOver ends the env=outage0 rewrite (one execution at a time per process).
+var outageOver atomic.Bool
 
 // GenPlans returns the generated family: quick = every (cfg, t1 of the five
 // representative scripts, t2, gate) on the default schedule; thorough = all
